@@ -10,7 +10,9 @@
     c|o|x|q <d> <j>, b|e <w> <j>  -> . | reject
     end                           -> accept maxrun=<n> ok=<n> | reject
   live concurrent run with the drivers' retry loop (any fair schedule gives the same totals):
-    conc <limit> <timeout_ms> <per_dispatcher_kinds,...> ...  -> conc value=<a> panic=<b> crash=<c>
+    conc <limit> <timeout_ms> <script> ...      -> conc value=<a> panic=<b> crash=<c> dropped=<d>
+    prx <limit> <timeout_ms> <u|p> <script> ...  (same, through Proactors sharing the pool)
+    script = `.` | <v|p|r><microseconds>,...
 -/
 import Compio.Model.Common
 import Compio.Model.AsyncifyPool
@@ -155,8 +157,9 @@ def allSome {α} : List (Option α) → Option (List α)
   | none :: _ => none
   | some a :: r => (allSome r).map (a :: ·)
 
+/-- a script is `.` or comma separated tokens `<v|p|r><microseconds>`; only the kind matters to the model -/
 def parseScript (w : String) : Option (List Kind) :=
-  if w = "." then some [] else allSome ((w.toList.map (fun c => String.singleton c)).map parseKind)
+  if w = "." then some [] else allSome ((w.splitOn ",").map fun t => parseKind (t.take 1).toString)
 
 def parseObs (c : String) (a b : Nat) : Option Spec.Obs :=
   match c with
@@ -185,6 +188,10 @@ def step (m : Mode) (line : String) : Mode × String :=
     | none => (m, "bad-op")
   | ["idle"], .det s => let (s', o) := detIdle s; (.det s', o)
   | "conc" :: l :: _t :: scripts, _ =>
+    match l.toNat?, allSome (scripts.map parseScript) with
+    | some l, some sc => (m, concOp l sc)
+    | _, _ => (m, "bad-op")
+  | "prx" :: l :: _t :: _drv :: scripts, _ =>
     match l.toNat?, allSome (scripts.map parseScript) with
     | some l, some sc => (m, concOp l sc)
     | _, _ => (m, "bad-op")
